@@ -325,8 +325,8 @@ func main() {
 		}
 		if sc.big {
 			b = 0 // six or more threads: the non-preemptive schedules only (every order in which threads are picked when one blocks or ends)
-			if thorough {
-				b = 1
+			if thorough && len(sc.batches[0]) <= 5 {
+				b = 1 // (one preemption over ten threads does not finish within the budget)
 			}
 		}
 		e.Budget = [3]int{b, 0, -1} // every choice among simultaneously ready select cases
